@@ -799,8 +799,9 @@ void ScriptEmitter::EmitCaseLabel(const prchar_t* name, sourceLocation_t sourceL
 
 void ScriptEmitter::EmitCaseLabel(int32_t label, sourceLocation_t sourceLoc)
 {
-    prchar_t name[11]{};
-    std::to_chars(name, name + sizeof(name), label);
+    // "-2147483648" needs 11 characters and the terminator
+    prchar_t name[12]{};
+    std::to_chars(name, name + sizeof(name) - 1, label);
 
     EmitCaseLabel(name, sourceLoc);
 }
